@@ -450,15 +450,11 @@ Fixpoint xs_is_point_int_from (cnt : Z) (s : list (itv xq)) : bool :=
   end.
 Definition xs_is_point_int (s : list (itv xq)) : bool := xs_is_point_int_from 0 s.
 
-Definition xs_contains (s : list (itv xq)) (v : xq) : option bool := fs_contains xq_cmp s v.
-
-(* checker for lp_feasibility_set_pick_value / lp_interval_pick_value: the value is in the set, and it is an
-   integer whenever the set contains one *)
+(* checker for lp_feasibility_set_pick_value / lp_interval_pick_value: the value is in the set (linear scan with
+   lp_interval_contains), and it is an integer whenever the set contains one *)
+Definition xs_mem (s : list (itv xq)) (v : xq) : bool := existsb (fun X => itv_contains xq_cmp X v) s.
 Definition xs_pick_ok (s : list (itv xq)) (v : xq) : bool :=
-  match xs_contains s v with
-  | Some true => if xs_contains_int s then xq_is_integer v else true
-  | _ => false
-  end.
+  xs_mem s v && (if xs_contains_int s then xq_is_integer v else true).
 
 (* the same membership checker on ranks (mixed-kind pool; the driver doubles the ranks so that a value
    strictly between two pool values has a rank of its own) *)
